@@ -146,7 +146,29 @@ fn pair(d: &mut Draw) -> ([f64; 4], [f64; 4], &'static str) {
     let p = fnormalize4(&comb4(&g, 1.0, &a, -dot4(&g, &a)));
     let flip = if d.bool() { 1.0 } else { -1.0 };
     let mk = |om: f64| fnormalize4(&comb4(&a, om.cos() * flip, &p, om.sin() * flip));
-    match d.int(0, 14) {
+    match d.int(0, 15) {
+        15 => {
+            // a on a coordinate axis, b a hair off the orthogonal complement: exactly one product a_i b_i is non-zero, so
+            // a.b = +-tiny in any evaluation order and its sign - the statement's criterion - is not a matter of rounding
+            let i = d.below(4);
+            let sa = if d.bool() { 1.0 } else { -1.0 };
+            let tiny = d.f64_log(1e-30, 1e-8) * if d.bool() { 1.0 } else { -1.0 };
+            let mut x = [0.0f64; 4];
+            x[i] = sa;
+            let mut y = g;
+            y[i] = 0.0;
+            let ny = norm4(&y);
+            if ny < 0.1 {
+                y = [0.0; 4];
+                y[(i + 1) % 4] = 1.0;
+            } else {
+                for k in 0..4 {
+                    y[k] /= ny;
+                }
+            }
+            y[i] = tiny;
+            (x, y, if sa * tiny < 0.0 { "barely-obtuse" } else { "barely-acute" })
+        }
         14 => (a, mk(std::f64::consts::FRAC_PI_2 - d.f64_slog(1e-12, 1e-2)), "nearly-orthogonal"),
         13 => {
             // a.b is +-0.9995 *exactly* (a on a coordinate axis, b = c a + s e_j): the statement's "a.b <= 0.9995" side
@@ -300,7 +322,9 @@ fn interp_f64(d: &mut Draw) -> Outcome {
     // (unless the dot product is zero by structure - every product a_i b_i vanishes - in which case a.b >= 0 holds
     // exactly and the statement names b)
     let structurally_zero = (0..4).all(|i| a[i] * b[i] == 0.0);
-    let targets: Vec<[f64; 4]> = if structurally_zero { vec![b] } else if raw.abs() <= 1e-12 { vec![b, neg] } else if raw >= 0.0 { vec![b] } else { vec![neg] };
+    // (and with exactly one non-zero product the sign of a.b is just as exact, however small it is)
+    let one_product = (0..4).filter(|&i| a[i] * b[i] != 0.0).count() == 1;
+    let targets: Vec<[f64; 4]> = if structurally_zero { vec![b] } else if raw.abs() <= 1e-12 && !one_product { vec![b, neg] } else if raw >= 0.0 { vec![b] } else { vec![neg] };
     for (slerp, who) in [(false, "nlerp"), (true, "slerp")] {
         let r: Quaternion<f64> = if slerp { qa.slerp(qb, t) } else { qa.nlerp(qb, t) };
         let rr = rq(&r);
@@ -360,7 +384,8 @@ fn interp_f32(d: &mut Draw) -> Outcome {
     let (qa, qb) = (Quaternion::new(af[0], af[1], af[2], af[3]), Quaternion::new(bf[0], bf[1], bf[2], bf[3]));
     let neg = [-b[0], -b[1], -b[2], -b[3]];
     let structurally_zero = (0..4).all(|i| a[i] * b[i] == 0.0);
-    let targets: Vec<[f64; 4]> = if structurally_zero { vec![b] } else if raw.abs() <= TOL32.tie { vec![b, neg] } else if raw >= 0.0 { vec![b] } else { vec![neg] };
+    let one_product = (0..4).filter(|&i| a[i] * b[i] != 0.0).count() == 1;
+    let targets: Vec<[f64; 4]> = if structurally_zero { vec![b] } else if raw.abs() <= TOL32.tie && !one_product { vec![b, neg] } else if raw >= 0.0 { vec![b] } else { vec![neg] };
     for (slerp, who) in [(false, "nlerp-f32"), (true, "slerp-f32")] {
         let r: Quaternion<f32> = if slerp { qa.slerp(qb, t) } else { qa.nlerp(qb, t) };
         let rr: [f64; 4] = [r.s as f64, r.v.x as f64, r.v.y as f64, r.v.z as f64];
@@ -407,10 +432,10 @@ pub fn property() -> Property {
     add!("lerp-i8", "i8", lerp_i8, 1500, 100_000, 32, &[("no-overflow", 100)], "every operand tuple over the whole integer range");
     add!("lerp-u64", "u64", lerp_u64, 1500, 100_000, 32, &[("no-overflow", 100)], "every operand tuple over the whole integer range");
     add!("nlerp_slerp-f64", "f64", interp_f64, 20000, 1_000_000, 80,
-        &[("generic+", 50), ("generic-", 50), ("generic-endpoint", 30), ("nearly-parallel", 30), ("nearly-opposite", 30), ("hand-over+", 50), ("hand-over-", 50), ("orthogonal", 30), ("orthogonal-disjoint-support", 30), ("hand-over-exactly-at-threshold", 20), ("nearly-orthogonal", 30), ("equal", 15), ("exactly-opposite", 15)],
+        &[("generic+", 50), ("generic-", 50), ("generic-endpoint", 30), ("nearly-parallel", 30), ("nearly-opposite", 30), ("hand-over+", 50), ("hand-over-", 50), ("orthogonal", 30), ("orthogonal-disjoint-support", 30), ("hand-over-exactly-at-threshold", 20), ("nearly-orthogonal", 30), ("barely-obtuse", 15), ("barely-acute", 15), ("equal", 15), ("exactly-opposite", 15)],
         "every generated pair; all pair classes, both signs of a.b and both endpoints required");
     add!("nlerp_slerp-f32", "f32", interp_f32, 20000, 1_000_000, 80,
-        &[("generic+", 50), ("generic-", 50), ("nearly-parallel", 30), ("nearly-opposite", 30), ("hand-over+", 50), ("hand-over-", 50), ("orthogonal", 30), ("nearly-orthogonal", 30)],
+        &[("generic+", 50), ("generic-", 50), ("nearly-parallel", 30), ("nearly-opposite", 30), ("hand-over+", 50), ("hand-over-", 50), ("orthogonal", 30), ("nearly-orthogonal", 30), ("barely-obtuse", 15)],
         "every generated pair (the f64 pair classes rounded to f32)");
     Property {
         id: "C14",
